@@ -1,5 +1,5 @@
 """C04 - every vec_t operator is the component-wise lifting of its scalar definition (vec.h, rkmath.h, constants.h)."""
-import json, multiprocessing, os, random, time
+import json, multiprocessing, os, random, struct, time
 from concurrent.futures import ThreadPoolExecutor
 from .. import tla, build, adt, adtcheck
 from ..tla import VERIF
@@ -17,9 +17,15 @@ LEVEL_TEXT = ("TLC checks the laws of the VecAlgebra specification for every vec
               "element types: computed in the usual-arithmetic-conversion type, only the result converted back), every padding combination of "
               "3-vectors, member / free-function forms, constructors, conversions, operator[], pointer view, streaming) "
               "and each result component is compared exactly; rcp / normalize / length / sin / cos results recorded from the real code are validated "
-              "by TLC against the specification's rationals within 2^-17 and against the scalar functions; seeded random long executions of a real "
+              "by TLC against the specification's rationals within 2^-17 and against the scalar functions; the LIFTING LAW is judged by TLC bit for bit on "
+              "general operands (non-dyadic floats, subnormals, huge values, signed zeros, full-range integers): for every operator / functor and "
+              "overload family the recorded components of the vector result must equal the recorded results of the C++ scalar operator applied to "
+              "each component pair; seeded random long executions of a real "
               "vec_t register are validated by TLC against the trace specification")
-LEVEL_NOTE = ("bounded and exact-arithmetic only: operand components from {-5,-3,-2,1,2,4,7} (signed and floating-point element types) and "
+LEVEL_NOTE = ("values are decided on the bounded exact-arithmetic domain; beyond it only the lifting law (vector result = real scalar operator per "
+              "component, bit for bit, signed zeros included; NaN / infinite OPERANDS excluded) is judged on seeded random and edge operands - it does "
+              "not say what the scalar operator should return. divRoundUp has a specified value for positive operands only (the two formulas rkmath.h "
+              "has used differ elsewhere). Bounded domain: operand components from {-5,-3,-2,1,2,4,7} (signed and floating-point element types) and "
               "{1,2,4,7,11,250} (unsigned), pairwise distinct and non-zero, plus derived tuples (exact quotients, shifted tuples that agree in some "
               "components, Pythagorean tuples, tuples with equal components (arg_max ties), fractional right-hand sides p/q with q in {2,4} and wide integer right-hand "
               "sides for compound assignment, the zero vector for sin / cos; comparisons and min / max also on tuples of the extreme values of each element "
@@ -31,7 +37,7 @@ LEVEL_NOTE = ("bounded and exact-arithmetic only: operand components from {-5,-3
               "(direction within 2^-17), conversions of out-of-range floating-point values. Overloads vec.h does not offer (abs of 32/64-bit unsigned, "
               "arg_max of padded vectors, rcp / normalize of integer vectors, % of floating-point vectors) are not exercised. Trusted: TLC, g++, the "
               "driver's construction of operands through the members x,y,z,w and its reading of results through them")
-TECHNIQUE = ("TLA+ functional specification of liftings over integer tuples; laws model-checked by TLC over the complete bounded lattice; "
+TECHNIQUE = ("TLA+ functional specification of liftings over integer tuples; lifting law on recorded bit patterns judged by TLC; laws model-checked by TLC over the complete bounded lattice; "
              "constant-level case enumeration by TLC replayed on every overload family of the real templates for 10 element types; TLC validation of "
              "recorded tolerant results and of recorded random executions")
 SPEC = os.path.join(VERIF, "spec", "math")
@@ -404,6 +410,195 @@ def validate_tol(chk, recs, tag, chunks=3):
 
 
 # ---------------------------------------------------------------------------------------------
+# code -> spec: the lifting law on general operands (bit patterns of vector results vs. scalar operator results, judged by TLC)
+# ---------------------------------------------------------------------------------------------
+def _f32(x):
+    return struct.unpack("f", struct.pack("f", x))[0]
+
+
+EDGE = {
+    "f": [_f32(v) for v in (5.0 / 3.0, 0.1, 1.0 / 3.0, 3.0, 7.0, 77.0, 49.0, 0.7, -2.5, 1e-39, -3e-40, 3e38, -2.9e38, 1e-20, 123456.789, 1e10, 6.0,
+                            -0.3, 1.1754944e-38, 16777217.0, 1.0, -1.0, 0.3, 2.0 / 3.0, 10.0, 1e-45)],
+    "d": [5.0 / 3.0, 0.1, 1.0 / 3.0, 3.0, 7.0, 77.0, 49.0, 0.7, -2.5, 5e-310, -2e-315, 1.5e308, -1.2e308, 1e-200, 123456.789, 1e100, 6.0, -0.3,
+          2.2250738585072014e-308, 9007199254740993.0, 1.0, -1.0, 0.3, 2.0 / 3.0, 10.0, 5e-324],
+}
+IRANGE = {"uc": (0, 255), "c": (-127, 127), "us": (0, 65535), "s": (-32767, 32767), "ui": (0, 4294967295), "i": (-2147483647, 2147483647),
+          "ul": (0, 2 ** 62), "l": (-2 ** 62, 2 ** 62)}          # the most negative value of the signed types is left out (no INT_MIN / -1)
+LIFT_MIN = 20          # every (operator, family, element type, shape) must have been judged on at least this many records
+
+
+def lift_cases(rnd, ty, n, ndiv, nzero):
+    """Seeded random + edge operands for the lifting law.  'div' cases: no zero in b and s (division, remainder, divRoundUp recorded);
+    the other cases (floating point only) put +0 / -0 into a and b (min / max / comparisons / + - * on signed zeros).  bi / si: small
+    positive integers for operands of another element type where one of the two types is integral."""
+    flt = ty in ("f", "d")
+
+    def fval(nonzero):
+        x = rnd.random()
+        if x < 0.45:
+            v = rnd.choice(EDGE[ty])
+        elif x < 0.9:
+            v = rnd.choice((-1, 1)) * rnd.uniform(1.0, 2.0) * 2.0 ** rnd.randint(-30, 30)
+        else:
+            v = rnd.choice((-1, 1)) * rnd.uniform(1.0, 2.0) * 2.0 ** (rnd.randint(-120, 120) if ty == "f" else rnd.randint(-1000, 1000))
+        v = _f32(v) if ty == "f" else v
+        if v == 0.0 and nonzero:
+            v = 3.0
+        return v
+
+    def ival(nonzero):
+        lo, hi = IRANGE[ty]
+        while True:
+            x = rnd.random()
+            if x < 0.4:
+                v = rnd.randint(max(lo, -100), min(hi, 100))
+            elif x < 0.5:
+                v = rnd.choice((lo, hi, hi - 1, max(lo, -1), 1, 2, 3, 7, 10))
+            else:
+                v = rnd.randint(lo, hi) >> rnd.choice((0, 0, 0, 3, 9, 20))
+                v = max(lo, min(hi, v))
+            if v != 0 or not nonzero:
+                return v
+
+    val = fval if flt else ival
+    cases = []
+    for k in range(ndiv + (nzero if flt else 0)):
+        div = k < ndiv
+        a = [val(False) for _ in range(n)]
+        b = [val(True) for _ in range(n)]
+        if rnd.random() < 0.2:
+            b[rnd.randrange(n)] = a[rnd.randrange(n)] if a[0] != 0 else b[0]      # equal operands somewhere
+            b = [x if x != 0 else val(True) for x in b]
+        if rnd.random() < 0.25:
+            i = rnd.randrange(n)
+            b[i] = a[i] if a[i] != 0 else b[i]                                    # equal components at the same index (comparisons)
+        if not div:
+            i = rnd.randrange(n)
+            a[i], b[i] = rnd.choice(((0.0, -0.0), (-0.0, 0.0), (0.0, 0.0), (-0.0, -0.0), (0.0, 3.0), (5.0 / 3.0 if ty == "d" else _f32(5.0 / 3.0), -0.0)))
+        cases.append({"a": "Lift", "arg": {"a": a, "b": b, "s": val(True), "bi": [rnd.randint(1, 100) for _ in range(n)], "si": rnd.randint(1, 100),
+                                             "div": div}})
+    return cases
+
+
+def lift_records(cases, res, ty):
+    recs, inexact = [], {}
+    for i, c in enumerate(cases):
+        r = res.get(i)
+        if r is None or "obs" not in r or not r["obs"] or "unexpected_exception" in r["obs"][0]:
+            raise tla.InfraError("vec driver gave no lifting-law observation for case %d on %s: %s" % (i, ty, r))
+        obs = r["obs"][0]
+        n = len(c["arg"]["a"])
+        ie = obs.get("_inexact", {})
+        d = inexact.setdefault(n, {"mul": 0, "div": 0, "div_s": 0})
+        for k in d:
+            d[k] += ie.get(k, 0)
+        recs.append({"id": i, "ty": ty, "n": n, "case": c, "r": {op: v for op, v in obs.items() if not op.startswith("_")}, "c": obs.get("_cmp", {})})
+    return recs, inexact
+
+
+def validate_lift(chk, recs, tag, chunks=1):
+    """TLC (VecLiftValidate) judges the lifting law on the records.  Returns (rejected list, number of judged (record, op, family))."""
+    d = os.path.join(tla.WORK, "run", "c04-lift-" + tag)
+    os.makedirs(d, exist_ok=True)
+    parts = [recs[k::chunks] for k in range(chunks) if recs[k::chunks]]
+
+    def one(k):
+        inp = os.path.join(d, "liftobs-%d-%d.ndjson" % (os.getpid(), k))
+        outp = os.path.join(d, "liftrej-%d-%d.ndjson" % (os.getpid(), k))
+        with open(inp, "w") as f:
+            for o in parts[k]:
+                f.write(json.dumps({"id": o["id"], "r": o["r"], "c": o["c"]}, separators=(",", ":")) + "\n")
+        if os.path.exists(outp):
+            os.remove(outp)
+        r = tla.run_tlc(os.path.join(SPEC, "VecLiftValidate.tla"), os.path.join(SPEC, "VecLiftValidate.cfg"), workers=1, timeout=1500,
+                        env={"C04_OBS": inp, "OUT": outp}, tag="c04-liftval-%s-%d" % (tag, k), xmx="4g")
+        import re
+        m = re.search(r'"C04-LIFT-VALIDATED",\s*(\d+),\s*"JUDGED",\s*(\d+)', r.out)
+        if not r.ok or not m or int(m.group(1)) != len(parts[k]):
+            raise tla.InfraError("VecLiftValidate failed: violated=%s error=%s\n%s" % (r.violated, r.error, r.out[-2500:]))
+        rej = []
+        if os.path.exists(outp):
+            with open(outp) as f:
+                rej = [json.loads(x) for x in f if x.strip()]
+            os.remove(outp)
+        os.remove(inp)
+        return rej, int(m.group(2))
+
+    with ThreadPoolExecutor(max_workers=max(1, len(parts))) as ex:
+        outs = list(ex.map(one, range(len(parts))))
+    return [x for rej, _ in outs for x in rej], sum(j for _, j in outs)
+
+
+def lift_type(chk, exe, ty, cases, tag="all"):
+    """Run the lifting-law cases of one element type on the real code and let TLC judge them."""
+    t0 = time.time()
+    res, rc, stderr, wall = adt.run_driver(exe, [[c] for c in cases], "c04-lift-%s-%s" % (tag, ty), meta={"ty": ty})
+    if rc != 0 and not res:
+        raise tla.InfraError("vec driver failed on the lifting-law cases for %s (rc=%s): %s" % (ty, rc, stderr[-800:]))
+    recs, inexact = lift_records(cases, res, ty)
+    counts = {}
+    for o in recs:
+        for op, fams in o["r"].items():
+            for fam in fams:
+                counts[(op, fam, o["n"])] = counts.get((op, fam, o["n"]), 0) + 1
+        for fam in o["c"]:
+            for op in ("eq", "ne", "anylt", "less"):
+                counts[(op, fam, o["n"])] = counts.get((op, fam, o["n"]), 0) + 1
+    rejected, judged = validate_lift(chk, recs, tag + "-" + ty, chunks=max(1, len(recs) // 250))
+    if judged != sum(counts.values()):
+        raise tla.InfraError("VecLiftValidate judged %d (record, operator, family) triples for %s, %d were handed over" % (judged, ty, sum(counts.values())))
+    by_id = {o["id"]: o for o in recs}
+    for rj in rejected:
+        o = by_id[rj["id"]]
+        for f in rj["failed"]:
+            op, fam = f["op"], f["fam"]
+            e = o["r"].get(op, {}).get(fam) if op in o["r"] else o["c"].get(fam)
+            sig = "vec.h/%s(vec%d,%s,%s)/lifting" % (op, o["n"], ty, fam)
+            what = ("vec_t<%s,%d> %s, overload family %s, operands %s: the vector result is not the scalar operator applied to each component "
+                    "(bit patterns in 16-bit pieces): %s" % (CXX[ty], o["n"], OPNAME.get(op, op), fam, json.dumps(o["case"]["arg"]), json.dumps(e)[:300]))
+            chk.violation(sig, what, {"kind": "lift", "property": chk.pid, "ty": ty, "case": o["case"], "failed": f, "observed": e})
+    chk.cov["evaluations"] += len(cases)
+    chk.cov["traces_validated_against_impl"] += len(recs)
+    chk.log("lifting law %s: %d records, %d (record, operator, family) triples judged by TLC (VecLiftValidate), %d records rejected, %.1fs"
+            % (CXX[ty], len(recs), judged, len(rejected), time.time() - t0))
+    return {"ty": ty, "records": len(recs), "judged": judged, "counts": counts, "inexact": inexact, "rejected": len(rejected)}
+
+
+def lift_guards(chk, outs):
+    """Vacuity guards of the lifting law: every (operator, family, element type, shape) judged on >= LIFT_MIN records, and the operands
+    contain pairs whose product / quotient is inexact (observed by the driver with fma residuals)."""
+    total, keys = 0, 0
+    summary = {}
+    for o in outs:
+        ty = o["ty"]
+        flt = ty in ("f", "d")
+        ops = {}
+        for (op, fam, n), k in o["counts"].items():
+            if k < LIFT_MIN:
+                raise tla.InfraError("vacuity guard: lifting law %s %s vec%d %s judged on %d records only" % (op, fam, n, ty, k))
+            ops.setdefault(op, set()).add(fam)
+            keys += 1
+        need = ["div", "min", "max", "neg", "pos", "eq", "ne", "anylt", "less"] + (["add", "sub", "mul", "rcp", "rcp_safe", "sin", "cos", "abs"] if flt else ["mod", "dru"])
+        for op in need:
+            if not ops.get(op):
+                raise tla.InfraError("vacuity guard: lifting law: operator %s never judged for %s" % (op, ty))
+        for fam in ["vv", "vs", "sv", "vv.ca", "vs.ca", "vv.uu", "vv.up", "vv.pu", "vv.pp", "vs.u", "vs.p", "sv.p", "vv.ca.pu", "vs.ca.p"]:
+            if fam not in ops["div"]:
+                raise tla.InfraError("vacuity guard: lifting law: family %s of operator/ never judged for %s" % (fam, ty))
+        if not any(".mx_" in f for f in ops["div"]) or (flt and not any(".mx_" in f and ".ca" in f for f in ops["mul"])):
+            raise tla.InfraError("vacuity guard: lifting law: mixed element type families never judged for %s" % ty)
+        for n in (2, 3, 4):
+            ie = o["inexact"].get(n, {})
+            if not ie.get("div") or not ie.get("div_s") or (flt and not ie.get("mul")):
+                raise tla.InfraError("vacuity guard: lifting law: no inexact %s among the vec%d operands of %s: %s" % ("product / quotient" if flt else "quotient", n, ty, ie))
+        total += o["judged"]
+        summary[ty] = {"records": o["records"], "judged": o["judged"], "operator_family_shape_keys": len(o["counts"]),
+                       "inexact_component_pairs": {str(n): v for n, v in sorted(o["inexact"].items())}}
+    chk.cov["lifting_law"] = {"judged": total, "operator_family_type_shape_keys": keys, "min_records_per_key": LIFT_MIN, "per_element_type": summary}
+    chk.cov["action_counts"]["Lift"] = sum(o["records"] for o in outs)
+
+
+# ---------------------------------------------------------------------------------------------
 # code -> spec: recorded random executions of a vector register
 # ---------------------------------------------------------------------------------------------
 LIMIT = {"s": 30000, "i": 4000000, "l": 4000000, "f": 4000000, "d": 4000000}
@@ -511,6 +706,9 @@ def run(chk, replay=None):
         "type's window, or uint8_t / uint16_t wrap-around of a chain of + - *)",
         "tolerant results are recorded scaled by 2^18 (length: 2^10) and rounded; acceptance is decided by TLC (VecTolValidate)",
         "the generator of the recorded executions bounds magnitudes a priori so that neither signed overflow nor inexact floats occur",
+        "lifting law: vector operator and scalar operator are evaluated in the same translation unit of the driver, compiled without fast-math and "
+        "with -ffp-contract=off (x86-64 SSE arithmetic, no excess precision); bit patterns are recorded in 16-bit pieces; the inexactness counters of "
+        "the vacuity guard are fma residuals observed by the driver",
     ]
     if replay:
         return do_replay(chk, replay)
@@ -559,7 +757,13 @@ def run_all(chk, quick, rnd, pool):
     fns += [(lambda sub, j=j: gen_and_submit(sub, j)) for j in jobs[:-1]]
     fns.append(lambda sub: submit_meta(sub, pool, pending, meta_path, exe, uac))
     fns += [(lambda sub, k=k: recorded_executions(sub, exe, k[0], k[1], trace_acts[k])) for k in trace_plan]
+    # the lifting law on general operands, one driver run + one TLC judgement per element type
+    nd, nz = (26, 22) if quick else (120, 60)
+    lift_in = {ty: [c for n in (2, 3, 4) for c in lift_cases(rnd, ty, n, nd + (0 if ty in ("f", "d") else nz // 2), nz)] for ty in TYPES}
+    nlift0 = len(fns)
+    fns += [(lambda sub, ty=ty: lift_type(sub, exe, ty, lift_in[ty])) for ty in TYPES]
     outs = parallel(chk, fns, workers=12 if quick else 14)
+    lift_outs = outs[nlift0:nlift0 + len(TYPES)]
     ncases = sum(o for o in outs[1:len(jobs)] if isinstance(o, int))
     chk.log("laws checked, %d cases generated, recorded executions validated in %.1fs; waiting for the replays" % (ncases, time.time() - t0))
 
@@ -603,6 +807,7 @@ def run_all(chk, quick, rnd, pool):
 
     # tolerant results
     validate_tol(chk, tol_recs, "all", chunks=3 if quick else 6)
+    lift_guards(chk, lift_outs)
 
     # vacuity guards: every case group, every operation of the statement, every family kind, every element type
     chk.require_actions(["Un", "Un/ties", "Bin", "Cmp", "Cmp/extremes", "Tern", "Conv", "Tol", "Zero", "Mca/float-rhs", "Mca/wide-int-rhs"])
@@ -639,6 +844,7 @@ def run_all(chk, quick, rnd, pool):
             cs = load_cases(path)
             c = cs[len(cs) // 2]
             chk.add_sample({"kind": "case", "case": {k: c[k] for k in ("a", "n", "arg", "exp")}})
+    chk.add_sample({"kind": "lifting-law-input", "ty": "f", "case": lift_in["f"][0]}, maxn=5)
     chk.add_sample({"kind": "recorded-execution-prefix", "ty": trace_plan[0][0], "shape": trace_plan[0][1], "actions": trace_acts[trace_plan[0]][0][:8]})
     for path in files:
         try:
@@ -655,7 +861,8 @@ def run_all(chk, quick, rnd, pool):
                        "fractional floating-point and wide integer right-hand sides (every first operand N = 2, 3; every 4th for N = 4 quick); one evaluation = one case applied to one "
                        "element type (all overload families of the operation inside); distinct = distinct (case group, operands) per element type; "
                        "non-trivial = operands of a binary case not identical and not the zero vector; exhaustive refers to the N = 2 lattices (and N = 3 in "
-                       "the thorough tier) - the samples for N = 3 / 4 and the recorded random executions are on top")
+                       "the thorough tier) - the samples for N = 3 / 4, the recorded random executions and the lifting-law records on general operands "
+                       "(seeded random + edge values, every operator x family x element type x shape judged on at least 20 records) are on top")
 
 
 def submit_meta(sub, pool, pending, meta_path, exe, uac):
@@ -685,6 +892,8 @@ def do_replay(chk, path):
             mm["case"] = c
         report_mismatches(chk, out)
         chk.cov["evaluations"] += 1
+    elif rep["kind"] == "lift":
+        lift_type(chk, exe, rep["ty"], [rep["case"]], tag="replay")
     elif rep["kind"] == "tol":
         c = {"a": "Tol", "arg": {"a": rep["a"]}}
         res, rc, stderr, wall = adt.run_driver(exe, [[c]], "c04-replay", meta={"ty": rep["ty"]})
